@@ -18,7 +18,7 @@
    `name+=value` mutator on an array writes the shared cell in place -- the config
    ShSubshell.buggy.cfg must make TLC report an Isolation violation (non-vacuity).
 
-   Every reachable state is one behaviour  (parent descriptor, context, mutator list);
+   Every reachable state is one behaviour  (parent descriptor, spawn kind, mutator list);
    it is emitted as a VEC line with the child view the contract predicts; the parent
    view (before = after) is emitted once per descriptor as a PD line.  The texts of
    the set-up commands and of the mutators are part of the spec (fields txt), the
@@ -51,7 +51,7 @@ AKeys  == {"k", "j", "z"}                       \* probed keys of associative ar
 \* gets its own copy of every variable RECORD.  The cells stay shared in both cases, which is
 \* why the write discipline is needed for every context.  One TLC state stands for the
 \* behaviours of all contexts of its kind (their child semantics are identical by contract);
-\* the engine runs every one of them.
+\* the engine runs short lists in every one of them and longer lists in one, in rotation.
 CtxOf == [share |-> <<"sub", "cmdsub", "pipelast">>,
           copy  |-> <<"procin", "procout", "pipefirst", "bg", "api">>]
 Kinds == {"share", "copy"}
